@@ -95,6 +95,10 @@ MUTATIONS = [
 ]
 
 QUIET = [
+    ('q-layers-longest-path', E, "        layers = nx.topological_generations(self._graph)\n",
+     "        depth = {}\n        for node in nx.topological_sort(self._graph):\n            depth[node] = max([depth[p] + 1 for p in self._graph.predecessors(node)], default=0)\n        layers = [[n for n in depth if depth[n] == d] for d in range(max(depth.values(), default=-1) + 1)]\n"),
+    ('q-views-are-copies', S, "    if isinstance(states, Store):\n        return states.get_value()", "    if isinstance(states, Store):\n        return copy.deepcopy(states.get_value())"),
+    ('q-batch-sorted-by-path', E, "                self._send_updates(updates)\n", "                updates = [u for _, u in sorted(zip(paths, updates), key=lambda pu: pu[0])]\n                self._send_updates(updates)\n"),
     ('q-comment', E, "            full_step = math.inf\n", "            full_step = math.inf  # reset\n"),
     ('q-rebuild-views-always', E,
      "        if view_expire:\n            self.state.build_topology_views()\n\n        self.run_steps()",
